@@ -94,29 +94,97 @@ def decodeFlushRate : Option Json → Option (Option Int)
     | some i => some (some i)
     | none => none
 
-/-- `ResponseOutputFormat::Json { newline_delimited }` (internally tagged) -/
-def isJsonFormat : Json → Bool
-  | .obj kvs =>
-    match Json.lookup kvs "type", Json.lookup kvs "newline_delimited" with
-    | some (.str "json"), some (.bool _) => true
-    | _, _ => false
-  | _ => false
+/-! #### serde's internally tagged enums (`#[serde(tag = "type")]`)
 
-/-- `from_value::<ResponseOutputPolicy>` (internally tagged on `type`), for the shapes the harness offers;
-`env` says how the file system treats a file name -/
-def decodePolicy (env : String → Bool × Bool) : Json → Option OutPolicy
+`serde` accepts two shapes: an object carrying the tag under `"type"` (the other entries are the variant's
+fields, unknown keys ignored), and a SEQUENCE whose first element is the tag (the remaining elements are the
+fields, by position, exactly as many as the variant has — a unit variant takes none).  The tag is the variant's
+name; where the value has already been buffered by an enclosing internally tagged enum ("nested": the `format`
+of a file policy, the `custom_weight_type` of a custom heuristic) the variant's INDEX is accepted as well. -/
+
+/-- what the variant is handed: the entries of the object, or the elements after the tag -/
+inductive Tagged where
+  | fields (kvs : List (String × Json))
+  | seq (xs : List Json)
+
+/-- the variant a tag names: its name, or (nested only) its index in declaration order -/
+def tagName (variants : List String) (nested : Bool) : Json → Option String
+  | .str t => if variants.contains t then some t else none
+  | .num l b => if nested then (match (Json.num l b).asU64? with | some i => variants[i]? | none => none) else none
+  | _ => none
+
+def tagged (variants : List String) (nested : Bool) : Json → Option (String × Tagged)
   | .obj kvs =>
     match Json.lookup kvs "type" with
-    | some (.str "none") => some .none
-    | some (.str "file") =>
-      match Json.lookup kvs "filename", Json.lookup kvs "format",
-            decodeFlushRate (Json.lookup kvs "file_flush_rate") with
-      | some (.str f), some fmt, some rate =>
-        if isJsonFormat fmt then some (.file { openOk := (env f).1, writeOk := (env f).2, flushRate := rate })
-        else none
-      | _, _, _ => none
-    | _ => none
+    | some t => (tagName variants nested t).map (fun n => (n, .fields kvs))
+    | none => none
+  | .arr (t :: rest) => (tagName variants nested t).map (fun n => (n, .seq rest))
   | _ => none
+
+/-- a sequence must have exactly the variant's number of fields -/
+def Tagged.arity (c : Tagged) (n : Nat) : Bool :=
+  match c with
+  | .fields _ => true
+  | .seq xs => xs.length == n
+
+/-- a required field: by name, or by position -/
+def Tagged.req (c : Tagged) (name : String) (idx : Nat) : Option Json :=
+  match c with
+  | .fields kvs => Json.lookup kvs name
+  | .seq xs => xs[idx]?
+
+/-- an `Option<_>` field: absent from an object or `null` is `None`; in a sequence the position must exist -/
+def Tagged.opt (c : Tagged) (name : String) (idx : Nat) : Option (Option Json) :=
+  match c with
+  | .fields kvs =>
+    match Json.lookup kvs name with
+    | none => some none
+    | some .null => some none
+    | some v => some (some v)
+  | .seq xs =>
+    match xs[idx]? with
+    | none => none
+    | some .null => some none
+    | some v => some (some v)
+
+/-- `ResponseOutputFormat::Json { newline_delimited }` (always nested: inside a file policy; the CSV format is
+not modelled: C19) -/
+def isJsonFormat (j : Json) : Bool :=
+  match tagged ["json", "csv"] true j with
+  | some ("json", c) =>
+    c.arity 1 && (match c.req "newline_delimited" 0 with | some (.bool _) => true | _ => false)
+  | _ => false
+
+/-- `Option<i64>` -/
+def decodeOptI64 : Option Json → Option (Option Int)
+  | none => some none
+  | some v => match v.asI64? with
+    | some i => some (some i)
+    | none => none
+
+/-- `from_value::<ResponseOutputPolicy>` (top level: the tag must be the name; the `Combined` policy is not
+modelled — `isCombined` — and the harness does not offer it); `env` says how the file system treats a file name -/
+def decodePolicy (env : String → Bool × Bool) (j : Json) : Option OutPolicy :=
+  match tagged ["none", "file", "combined"] false j with
+  | some ("none", c) => if c.arity 0 then some .none else none
+  | some ("file", c) =>
+    if !c.arity 3 then none
+    else
+      match c.req "filename" 0, c.req "format" 1, c.opt "file_flush_rate" 2 with
+      | some (.str f), some fmt, some rate =>
+        match decodeOptI64 rate with
+        | some r =>
+          if isJsonFormat fmt then some (.file { openOk := (env f).1, writeOk := (env f).2, flushRate := r })
+          else none
+        | none => none
+      | _, _, _ => none
+  | _ => none
+
+/-- the value names the (unmodelled) `Combined` policy -/
+def isCombined (j : Json) : Bool :=
+  match tagged ["none", "file", "combined"] false j with
+  | some ("combined", _) => true
+  | _ => false
 
 structure RunOverrides where
   par : Option Nat
@@ -312,28 +380,29 @@ def decodeMapping : List (String × Json) → Option (List (String × Nat))
     | some b, some m => some ((k, b) :: m)
     | _, _ => none
 
-/-- `from_value::<CustomWeightType>` (internally tagged on `type`) -/
-def decodeCustomWeight (fmt : Nat → String) : Json → Option Plugin
-  | .obj kvs =>
-    match Json.lookup kvs "type" with
-    | some (.str "numeric") =>
-      match decodeOptString (Json.lookup kvs "column_name") with
-      | some col => some (.lbNumeric (col.getD weightKey) fmt)
+/-- `CustomWeightType` (always nested: inside `WeightHeuristic::Custom`) -/
+def decodeCustomWeight (fmt : Nat → String) (j : Json) : Option Plugin :=
+  match tagged ["numeric", "categorical"] true j with
+  | some ("numeric", c) =>
+    if !c.arity 1 then none
+    else match c.opt "column_name" 0 with
+      | some col => match decodeOptString col with
+        | some col => some (.lbNumeric (col.getD weightKey) fmt)
+        | none => none
       | none => none
-    | some (.str "categorical") =>
-      match decodeOptString (Json.lookup kvs "column_name"), Json.lookup kvs "mapping" with
-      | some col, some (.obj m) =>
-        match decodeMapping m with
-        | some mapping =>
-          match Json.lookup kvs "default" with
+  | some ("categorical", c) =>
+    if !c.arity 3 then none
+    else match c.opt "column_name" 0, c.req "mapping" 1, c.opt "default" 2 with
+      | some col, some (.obj m), some dflt =>
+        match decodeOptString col, decodeMapping m with
+        | some col, some mapping =>
+          match dflt with
           | none => some (.lbCategorical (col.getD weightKey) mapping none fmt)
-          | some .null => some (.lbCategorical (col.getD weightKey) mapping none fmt)
           | some d => match decodeF64 d with
             | some b => some (.lbCategorical (col.getD weightKey) mapping (some b) fmt)
             | none => none
-        | none => none
-      | _, _ => none
-    | _ => none
+        | _, _ => none
+      | _, _, _ => none
   | _ => none
 
 /-- what `LoadBalancerBuilder::build` makes of its parameters: a modelled custom heuristic, or the haversine
@@ -342,25 +411,27 @@ inductive LbBuilt where
   | custom (p : Plugin)
   | haversine
 
-/-- `LoadBalancerBuilder::build(params)`: `weight_heuristic` through `get_config_serde::<WeightHeuristic>` -/
+/-- `LoadBalancerBuilder::build(params)`: `weight_heuristic` through `get_config_serde::<WeightHeuristic>` (top
+level: object or sequence, the tag by name) -/
 def buildLoadBalancer (fmt : Nat → String) (params : Json) : Except BuildErr LbBuilt :=
   match params.get? "weight_heuristic" with
   | none => .error .missingField
-  | some (.obj kvs) =>
-    match Json.lookup kvs "type" with
-    | some (.str "haversine") => .ok .haversine
-    | some (.str "custom") =>
-      match Json.lookup kvs "custom_weight_type" with
-      | some c => match decodeCustomWeight fmt c with
-        | some p => .ok (.custom p)
+  | some v =>
+    match tagged ["haversine", "custom"] false v with
+    | some ("haversine", c) => if c.arity 0 then .ok .haversine else .error .serde
+    | some ("custom", c) =>
+      if !c.arity 1 then .error .serde
+      else match c.req "custom_weight_type" 0 with
+        | some cw => match decodeCustomWeight fmt cw with
+          | some p => .ok (.custom p)
+          | none => .error .serde
         | none => .error .serde
-      | none => .error .serde
     | _ => .error .serde
-  | some _ => .error .serde
 
 /-! ### `CompassApp::try_from((&Config, &CompassAppBuilder))`: the stages, first failure wins -/
 
-/-- the stages in the order of the code -/
+/-- the stages in the order of the code (the `parallelism` stage fails for a value that is not — or that the
+configuration library cannot turn into — an unsigned integer, and, since fix e253b7d, for 0) -/
 def buildStages : List String :=
   ["config", "algorithm", "state", "traversal", "access", "cost", "frontier", "termination", "graph",
    "input_plugins", "output_plugins", "parallelism", "search_orientation", "response_persistence_policy",
